@@ -101,7 +101,12 @@ pub fn run_check(id: &str, report: &mut Report, budget: Duration) -> bool {
             report.add("evaluations", n);
             report.set("end_to_end_agent_runs", n);
         }
-        "C16" => c16::run(report),
+        "C16" => {
+            c16::run(report);
+            let n = e6::c16_slice(report);
+            report.add("evaluations", n);
+            report.set("end_to_end_agent_runs", n);
+        }
         "C08" => c08::run(report),
         "C09" => c09::run(report),
         "C10" => c10::run(report),
